@@ -1645,10 +1645,10 @@ class EnvWalker:
         elif k == "MethodCall":
             self._w(e["recv"], env, cb, ctx)
             recv = N.nf(e["recv"], env)
-            for a in e["args"]:
+            for ai, a in enumerate(e["args"]):
                 a2 = H.strip(a)
                 if a2.get("k") == "Closure":
-                    self._closure(a2, e, recv, env, cb, ctx)
+                    self._closure(a2, e, recv, env, cb, ctx, ai)
                 else:
                     self._w(a, env, cb, ctx)
         elif k == "Call":
@@ -1677,11 +1677,23 @@ class EnvWalker:
                 if key in e and isinstance(e[key], (dict, list)):
                     self._w(e[key], env, cb, ctx)
 
-    def _closure(self, clo, call, recv, env, cb, ctx):
+    def _closure(self, clo, call, recv, env, cb, ctx, arg_index=0):
         body = clo["body"]
         env2 = env.child()
         name = call.get("name") if call and call.get("k") == "MethodCall" else None
         is_iter = call is not None and ("Iterator" in (call.get("path") or "") or name in ("for_each", "filter_map"))
+        on_option = call is not None and not is_iter and "Option" in ((call.get("path") or "") + (call.get("inst_path") or ""))
+        if on_option:
+            # the closure of an Option combinator runs on one side of "the option is Some": that is its context
+            when_none = name in ("unwrap_or_else", "or_else", "ok_or_else", "get_or_insert_with") or (name == "map_or_else" and arg_index == 0)
+            when_some = name in ("map", "and_then", "is_some_and", "filter", "inspect", "is_none_or") or (name in ("map_or", "map_or_else") and arg_index == 1)
+            if when_none or when_some:
+                ctx = ctx + (("alt", ("islet", "Some(_)", recv), bool(when_some)),)
+                if when_some:
+                    for pat in body["params"]:
+                        bind_pattern(pat, ("payload", "Some", recv), env2)
+                self._w(body["value"], env2, cb, ctx)
+                return
         if name in ("for_each", "try_for_each") and is_iter:
             src, val, conds = iter_view(recv)
             for pat in body["params"]:
